@@ -474,6 +474,203 @@ pub mod g7 {
         Ok(found)
     }
 }
+pub mod t17 {
+    /// the kind of the OUTERMOST open bracket is read where the innermost is meant
+    pub fn ctl_reads_outermost(tokens: &[u8]) -> usize {
+        let mut group_stack: Vec<(usize, bool)> = vec![];
+        let mut hits = 0;
+        for (i, t) in tokens.iter().enumerate() {
+            match *t {
+                b'(' => group_stack.push((i, false)),
+                b')' => {
+                    group_stack.pop();
+                }
+                _ => {
+                    if let Some((start, _)) = group_stack.first() {
+                        hits += *start;
+                    }
+                }
+            }
+        }
+        hits
+    }
+    pub fn ok_reads_current(tokens: &[u8]) -> usize {
+        let mut group_stack: Vec<(usize, bool)> = vec![];
+        let mut current_group = None;
+        let mut hits = 0;
+        for (i, t) in tokens.iter().enumerate() {
+            match *t {
+                b'(' => {
+                    current_group = Some(group_stack.len());
+                    group_stack.push((i, false));
+                }
+                b')' => {
+                    group_stack.pop();
+                    current_group = match group_stack.is_empty() {
+                        true => None,
+                        false => Some(group_stack.len() - 1),
+                    };
+                }
+                _ => {
+                    if let Some(current) = current_group {
+                        if let Some((start, _)) = group_stack.get(current) {
+                            hits += *start;
+                        }
+                    }
+                }
+            }
+        }
+        hits
+    }
+}
+pub mod t18 {
+    pub struct ParseNode {
+        pub parent: Option<usize>,
+    }
+    pub fn ok_records_shifted_id(tokens: &[u8]) -> Vec<ParseNode> {
+        let mut nodes: Vec<ParseNode> = vec![];
+        let mut next_parent: Option<usize> = None;
+        let mut check_for_list = false;
+        for t in tokens.iter() {
+            let current_id = nodes.len();
+            let parent = match *t {
+                0 => None,
+                1 => {
+                    next_parent = Some(current_id);
+                    None
+                }
+                2 => {
+                    check_for_list = true;
+                    None
+                }
+                3 => {
+                    let mut parent = next_parent;
+                    let mut our_id = current_id;
+                    if check_for_list {
+                        our_id = current_id + 1;
+                        parent = Some(current_id);
+                        nodes.push(ParseNode { parent: None });
+                        check_for_list = false;
+                    }
+                    next_parent = Some(our_id);
+                    parent
+                }
+                4 => next_parent,
+                5 => None,
+                6 => None,
+                7 => None,
+                _ => None,
+            };
+            nodes.push(ParseNode { parent });
+        }
+        nodes
+    }
+    pub fn ctl_records_unshifted_id(tokens: &[u8]) -> Vec<ParseNode> {
+        let mut nodes: Vec<ParseNode> = vec![];
+        let mut next_parent: Option<usize> = None;
+        let mut check_for_list = false;
+        for t in tokens.iter() {
+            let current_id = nodes.len();
+            let parent = match *t {
+                0 => None,
+                1 => {
+                    next_parent = Some(current_id);
+                    None
+                }
+                2 => {
+                    check_for_list = true;
+                    None
+                }
+                3 => {
+                    let mut parent = next_parent;
+                    let mut our_id = current_id;
+                    if check_for_list {
+                        our_id = current_id + 1;
+                        parent = Some(current_id);
+                        nodes.push(ParseNode { parent: None });
+                        check_for_list = false;
+                    }
+                    next_parent = Some(current_id);
+                    parent
+                }
+                4 => next_parent,
+                5 => None,
+                6 => None,
+                7 => None,
+                _ => None,
+            };
+            nodes.push(ParseNode { parent });
+        }
+        nodes
+    }
+}
+pub mod t19 {
+    pub struct ParseNode {
+        pub parent: Option<usize>,
+        pub right: Option<usize>,
+    }
+    fn place(id: usize, right: Option<usize>, nodes: &mut Vec<ParseNode>) -> (Option<usize>, Option<usize>) {
+        let parent = if id > 0 { Some(id - 1) } else { None };
+        if let Some(p) = parent {
+            nodes[p].right = Some(id);
+        }
+        (parent, right)
+    }
+    pub fn ok_records_next_parent(tokens: &[u8]) -> Vec<ParseNode> {
+        let mut nodes: Vec<ParseNode> = vec![];
+        let mut next_parent: Option<usize> = None;
+        for (i, t) in tokens.iter().enumerate() {
+            let current_id = nodes.len();
+            let assumed_right = match i + 1 >= tokens.len() {
+                true => None,
+                false => Some(current_id + 1),
+            };
+            let links = match *t {
+                0 => (None, None),
+                1 => {
+                    next_parent = Some(current_id);
+                    place(current_id, assumed_right, &mut nodes)
+                }
+                2 => (next_parent, None),
+                3 => (None, None),
+                4 => (None, None),
+                5 => (None, None),
+                6 => (None, None),
+                7 => (None, None),
+                _ => (None, None),
+            };
+            nodes.push(ParseNode { parent: links.0, right: links.1 });
+        }
+        nodes
+    }
+    pub fn ctl_forgets_next_parent(tokens: &[u8]) -> Vec<ParseNode> {
+        let mut nodes: Vec<ParseNode> = vec![];
+        let mut next_parent: Option<usize> = None;
+        for (i, t) in tokens.iter().enumerate() {
+            let current_id = nodes.len();
+            let assumed_right = match i + 1 >= tokens.len() {
+                true => None,
+                false => Some(current_id + 1),
+            };
+            let links = match *t {
+                0 => (None, None),
+                1 => {
+                    
+                    place(current_id, assumed_right, &mut nodes)
+                }
+                2 => (next_parent, None),
+                3 => (None, None),
+                4 => (None, None),
+                5 => (None, None),
+                6 => (None, None),
+                7 => (None, None),
+                _ => (None, None),
+            };
+            nodes.push(ParseNode { parent: links.0, right: links.1 });
+        }
+        nodes
+    }
+}
 pub mod g4c {
     use garnish_lang_traits::{GarnishData, TypeConstants};
     pub fn ctl_no_lower_bound<D: GarnishData>(this: &D, list: D::Size, index: D::Number) -> Result<Option<D::Size>, D::Error> {
